@@ -25,6 +25,16 @@ type histParams struct {
 	Late        bool // a second driver sends a late message after quiescence (probe)
 	WaitCtx     bool // drivers wait on every stop context
 	Bystander   bool
+	LC          string // lifecycle handlers that panic once: comma separated "<incarnation><I|S>", e.g. "2S" = Started of incarnation 2
+}
+
+func (hp histParams) lcFails(inc int, which byte) bool {
+	for _, f := range strings.Split(hp.LC, ",") {
+		if len(f) == 2 && int(f[0]-'0') == inc && f[1] == which {
+			return true
+		}
+	}
+	return false
 }
 
 func (hp histParams) String() string {
@@ -32,7 +42,11 @@ func (hp histParams) String() string {
 	if hp.Delay {
 		d = 1
 	}
-	return fmt.Sprintf("%s_r%dd%dmode%dmw%d", hp.Hist, hp.MaxRestarts, d, hp.Mode, hp.NMW)
+	lc := ""
+	if hp.LC != "" {
+		lc = "lc" + hp.LC
+	}
+	return fmt.Sprintf("%s_r%dd%dmode%dmw%d%s", hp.Hist, hp.MaxRestarts, d, hp.Mode, hp.NMW, lc)
 }
 
 type histRun struct {
@@ -49,6 +63,8 @@ type histRun struct {
 	byPID    *actor.PID
 	spawnRet bool
 	startedAtSpawnRet bool
+	issued   bool
+	lcDone   map[string]bool
 }
 
 func (h *histRun) issue(i int, e *actor.Engine) {
@@ -71,7 +87,12 @@ func (h *histRun) issue(i int, e *actor.Engine) {
 func (h *histRun) behave(k *Kit, c *actor.Context, inc int) {
 	switch m := c.Message().(type) {
 	case actor.Initialized:
-		if h.hp.Mode == 1 && inc == 1 {
+		if h.hp.lcFails(inc, 'I') && !h.lcDone[fmt.Sprint(inc, "I")] {
+			h.lcDone[fmt.Sprint(inc, "I")] = true
+			panic(fmt.Sprintf("Initialized of incarnation %d", inc))
+		}
+		if h.hp.Mode == 1 && !h.issued {
+			h.issued = true
 			// the process is registered by now: a driver thread races with Started, with the
 			// start of the inbox and with the worker
 			e := c.Engine()
@@ -82,7 +103,12 @@ func (h *histRun) behave(k *Kit, c *actor.Context, inc int) {
 			})
 		}
 	case actor.Started:
-		if h.hp.Mode == 0 && inc == 1 {
+		if h.hp.lcFails(inc, 'S') && !h.lcDone[fmt.Sprint(inc, "S")] {
+			h.lcDone[fmt.Sprint(inc, "S")] = true
+			panic(fmt.Sprintf("Started of incarnation %d", inc))
+		}
+		if h.hp.Mode == 0 && !h.issued {
+			h.issued = true
 			for i := range h.hp.Hist {
 				h.issue(i, c.Engine())
 			}
@@ -121,9 +147,9 @@ func (h *histRun) middleware(i int) actor.MiddlewareFunc {
 // histInstance explores every variant (a data choice at the start of the execution) under
 // every schedule within the bound.
 func histInstance(variants []histParams, oracle func(h *histRun, r *vsched.Result) []vsched.Violation) vsched.Instance {
-	h := &histRun{paniced: map[int]bool{}}
+	h := &histRun{paniced: map[int]bool{}, lcDone: map[string]bool{}}
 	body := func() {
-		h.hp = variants[vsched.Choose(len(variants))]
+		h.hp = variants[chooseVariant(len(variants))]
 		hp := h.hp
 		k := NewKit()
 		h.k = k
@@ -190,11 +216,40 @@ type histRef struct {
 	terminal    byte // 0 none, 'P', 'S', 'E' (budget exhausted)
 	termIdx     int
 	exhausted   bool
+	incOf       map[int]int // incarnation that must receive message i
 }
 
-func refHistory(hist string, maxRestarts int) histRef {
-	ref := histRef{mustDeliver: map[int]bool{}, mayDeliver: map[int]bool{}, termIdx: -1}
+func refHistory(hist string, maxRestarts int) histRef { return refHistoryLC(histParams{Hist: hist, MaxRestarts: maxRestarts}) }
+
+// refHistoryLC is the reference semantics of a history including lifecycle handlers that panic:
+// every panic (user message or lifecycle handler) costs one restart and produces the next
+// incarnation, or terminates the actor when the budget is used up.
+func refHistoryLC(hp histParams) histRef {
+	hist, maxRestarts := hp.Hist, hp.MaxRestarts
+	ref := histRef{mustDeliver: map[int]bool{}, mayDeliver: map[int]bool{}, termIdx: -1, incOf: map[int]int{}}
 	restarts := 0
+	inc := 1
+	// lifecycle failures of the incarnation that is starting
+	startInc := func(at int) {
+		for ref.terminal == 0 {
+			n := 0
+			if hp.lcFails(inc, 'I') {
+				n++
+			} else if hp.lcFails(inc, 'S') {
+				n++
+			}
+			if n == 0 {
+				return
+			}
+			if restarts == maxRestarts {
+				ref.terminal, ref.termIdx, ref.exhausted = 'E', at, true
+				return
+			}
+			restarts++
+			inc++
+		}
+	}
+	startInc(0)
 	for i := 0; i < len(hist); i++ {
 		c := hist[i]
 		if ref.terminal != 0 {
@@ -208,12 +263,16 @@ func refHistory(hist string, maxRestarts int) histRef {
 		switch c {
 		case 'm':
 			ref.mustDeliver[i] = true
+			ref.incOf[i] = inc
 		case 'x', 'X':
 			ref.mustDeliver[i] = true
+			ref.incOf[i] = inc
 			if restarts == maxRestarts {
 				ref.terminal, ref.termIdx, ref.exhausted = 'E', i, true
 			} else {
 				restarts++
+				inc++
+				startInc(i)
 			}
 		case 'P', 'S':
 			ref.terminal, ref.termIdx = c, i
@@ -296,7 +355,7 @@ func histOracle(h *histRun, r *vsched.Result) []vsched.Violation {
 	}
 	k := h.k
 	hp := h.hp
-	ref := refHistory(hp.Hist, hp.MaxRestarts)
+	ref := refHistoryLC(hp)
 	vs = append(vs, k.serial()...)
 	ended := ref.terminal != 0
 	if ended == h.regAtEnd {
@@ -376,13 +435,13 @@ func histOracle(h *histRun, r *vsched.Result) []vsched.Violation {
 	}
 	// every crash is delivered to an incarnation that then ends; messages behind it go to the next one
 	// (covered by shape + order + exactly-once); the failing message's incarnation is the crashing one:
-	crashSeen := 0
 	for i := 0; i < len(hp.Hist); i++ {
-		if (hp.Hist[i] == 'x' || hp.Hist[i] == 'X') && ref.mustDeliver[i] && count[i] == 1 {
-			crashSeen++
-			if incOf[i] != crashSeen && crashSeen <= wantInc {
-				vs = append(vs, V("restart/failing-message-in-wrong-incarnation", "message %d delivered to incarnation %d, want %d", i, incOf[i], crashSeen))
+		if ref.mustDeliver[i] && count[i] == 1 && incOf[i] != ref.incOf[i] {
+			sig := "restart/message-delivered-to-wrong-incarnation"
+			if hp.Hist[i] == 'x' || hp.Hist[i] == 'X' {
+				sig = "restart/failing-message-in-wrong-incarnation"
 			}
+			vs = append(vs, V(sig, "history %s: message %d delivered to incarnation %d, want %d; log: %s", hp, i, incOf[i], ref.incOf[i], k.LogString()))
 		}
 	}
 	return append(vs, histTail(h, ref, ended, count)...)
@@ -539,6 +598,29 @@ func init() {
 				Desc: fmt.Sprintf("all %d histories over {m,x,X} of length<=4 with 1..3 crashes", len(vt)),
 				Make: func() vsched.Instance { return histInstance(vt, histOracle) }})
 		}
+	}
+
+	// C05: lifecycle handlers that panic (Initialized/Started of incarnation 1, of the incarnation
+	// produced by a restart), alone and combined with failing messages and a queued tail.
+	for _, mode := range []int{0, 1} {
+		var vq, vt []histParams
+		for _, lc := range []string{"1I", "1S", "2I", "2S", "1I,2S", "2S,3S", "2I,3I"} {
+			for _, h := range []string{"m", "mm", "x", "xm", "xmm", "mxm", "xxm", "xmx"} {
+				p := histParams{Hist: h, MaxRestarts: 4, Mode: mode, Bystander: true, LC: lc}
+				if len(lc) == 2 && len(h) <= 3 {
+					vq = append(vq, p)
+				}
+				vt = append(vt, p)
+				p.Delay = true
+				vt = append(vt, p)
+			}
+		}
+		Register(&Job{Name: fmt.Sprintf("C05/hist/lifecycle-handler-panics-mode%d", mode), Prop: "C05", Bound: 1, BoundT: 2, Budget: 40, BudgetT: 600,
+			Desc: fmt.Sprintf("%d (history, failing lifecycle handler) pairs: Initialized/Started of incarnation 1 or 2 panics once, histories over {m,x} of length<=3 (MaxRestarts 4): the queued tail survives, is delivered once, in order, to the first incarnation that starts successfully", len(vq)),
+			Make: func() vsched.Instance { return histInstance(vq, histOracle) }})
+		Register(&Job{Name: fmt.Sprintf("C05/hist/lifecycle-handler-panics-seq-mode%d", mode), Prop: "C05", Tier: "thorough", Bound: 1, BoundT: 2, Budget: 40, BudgetT: 900,
+			Desc: fmt.Sprintf("%d pairs incl. two failing lifecycle handlers in a row and restart delay >0", len(vt)),
+			Make: func() vsched.Instance { return histInstance(vt, histOracle) }})
 	}
 
 	// C06: budget exhaustion. MaxRestarts r, histories with exactly r+1 crashes among <=r+3 symbols.
